@@ -34,7 +34,8 @@ def provenance(ctx, rep, clause):
        clause)
     if target is None:
         return
-    cn = Canon(f.node)
+    from ..canon import helper_inliner
+    cn = Canon(f.node, inliner=helper_inliner(program, f.module.name, exclude=('mod_mass', 'mass', 'round')))
     k = 0
     for n in walk_own(f.node):
         if isinstance(n, ast.Call) and isinstance(n.func, ast.Attribute) and isinstance(n.func.value, ast.Name) and \
@@ -56,8 +57,14 @@ def provenance(ctx, rep, clause):
                     cands = [mods_args[0]]
                     if isinstance(mods_args[0], ast.Name):
                         cands = [a.value for a in ast.walk(f.node) if isinstance(a, ast.Assign) and
-                                 norm_stmt(a.targets[0]) == mods_args[0].id and
-                                 not (isinstance(a.value, ast.Constant) and a.value.value is None)]
+                                 norm_stmt(a.targets[0]) == mods_args[0].id]
+
+                    def arms(e):
+                        if isinstance(e, ast.IfExp):
+                            return arms(e.body) + arms(e.orelse)
+                        return [e]
+                    cands = [x for cnd in cands for x in arms(cnd)
+                             if not (isinstance(x, ast.Constant) and x.value is None)]
                     rounds = []
                     for cnd in cands:
                         if isinstance(cnd, ast.List) and len(cnd.elts) == 1 and isinstance(cnd.elts[0], ast.Call) and \
@@ -67,6 +74,8 @@ def provenance(ctx, rep, clause):
                             rounds.append(None)
                     if rounds and all(r is not None for r in rounds):
                         val = rounds[0]
+            if val is not None:
+                val = cn.resolve(val)     # a local, or a small helper that rounds the sum, is read through
             ok = isinstance(val, ast.Call) and isinstance(val.func, ast.Name) and val.func.id == 'round'
             ob(rep, 'PROV', FQ, f'`{norm_stmt(n)[:70]}` writes a rounded number', ok, 'round(<mass>, precision)',
                f'`{norm_stmt(n)[:70]}` writes something that is not the result of round(...): the output may '
